@@ -72,6 +72,15 @@ def run(ctx):
         snaps = [trees.snapshot(o) for o in objs]
         for i, j in order:
             hs, inst, log = instances[i]
+            if rng.random() < 0.12:
+                # the caller edits the tree in place between two visits (another value, another child assigned to
+                # an attribute, operands in another order): visitors that already walked it must see the tree as it
+                # is now (seeded C08-G: `Item.children` remembered, parents memoised by id)
+                d2 = trees.edit_in_place(rng, tlist[j], objs[j])
+                if d2 is not None:
+                    tlist[j] = common.dump_tree(objs[j])
+                    snaps[j] = trees.snapshot(objs[j])
+                    ctx.count("tree edited in place between visits")
             inst.events = []
             res = inst.visit(objs[j])
             idp = trees.id_paths(objs[j])
@@ -82,7 +91,7 @@ def run(ctx):
                             "parents_ok": [idp.get(p) for p in pids] == [true_path[:k] for k in range(len(true_path))]
                             if true_path is not None else False,
                             "true_path": list(true_path) if true_path is not None else None})
-            log.append((j, evs))
+            log.append((j, evs, tlist[j]))
             # ---- oracle: every node exactly once, pre-order, right handler, true context
             want = [p for p, _ in common.tree_nodes(tlist[j])]
             got = [tuple(e["true_path"]) if e["true_path"] is not None else None for e in evs]
@@ -113,8 +122,8 @@ def run(ctx):
             if not trees.unchanged(o, s):
                 ctx.fail("visiting modified the tree", {"tree": d})
         for hs, inst, log in instances:
-            reqs.append({"op": "visitseq", "handlers": hs, "trees": [tlist[j] for j, _ in log]})
-            expected.append([[{"h": e["h"], "path": e["path"]} for e in evs] for _, evs in log])
+            reqs.append({"op": "visitseq", "handlers": hs, "trees": [dj for _, _, dj in log]})
+            expected.append([[{"h": e["h"], "path": e["path"]} for e in evs] for _, evs, _ in log])
         ctx.count("histories")
         ctx.count("visits", len(order))
 
